@@ -14,7 +14,7 @@ KEYS = [0, 1, 2]
 
 PROFILE_DYN = dict(call_dyn=30, call=8, get_item=10, del_item=4, set_value_dyn=6, set_value=2,
                    clear_at_dyn=3, set_formula=9, set_cached=3, set_ref=10, del_ref=3,
-                   new_cells=3, del_cells=2, set_pf=3, add_bases=2, remove_bases=1,
+                   new_cells=3, del_cells=2, set_pf=3, add_bases=4, remove_bases=2,
                    new_space=2, del_space=0.4)
 
 
@@ -43,6 +43,8 @@ class GenDyn(Gen):
         self.outer_base = self.nested and rng.random() < 0.5
         if self.outer_base:
             sp.append(["R"])           # the nested ItemSpaces P[i].Q[k] replicate R, outside P's tree
+            if ["B"] not in sp and rng.random() < 0.7:
+                sp.append(["B"])       # ... and R may gain / lose B as a base later
         self.deep = rng.random() < 0.35
         if self.deep:
             # two levels of child spaces with the SAME name on two paths: P.C.K and P.E.K
@@ -98,6 +100,9 @@ class GenDyn(Gen):
         place = {"x": [["P"], ["B"]], "y": [["P"]], "z": [["P", "C"], ["P", "Q"], ["R"]], "w": [["S"]]}
         if ["R"] in sp:
             mir["refs"][("R",)]["s"] = {"v": ["int", rng.choice(INT_VALUES), [], ""], "mode": "auto"}
+            if ["B"] in sp and rng.random() < 0.6:
+                # B shadows the model-level g for whatever derives from it
+                mir["refs"][("B",)]["g"] = {"v": ["int", rng.choice(INT_VALUES), [], ""], "mode": "auto"}
         derive_x = ["B"] in mir["bases"][("P",)] and rng.random() < 0.6   # P derives x from B
         for nm in names:
             for p in place[nm]:
